@@ -275,6 +275,18 @@ class Executor:
         nm = name if k == 0 else f"{name}#{k + 1}"
         self.obligations.append(PendingObligation(self.obl_prefix + nm, list(self.axioms) + list(st.pc), claim, note))
 
+    def merged_obligations(self) -> list[PendingObligation]:
+        """Obligations raised during execution, merged by base name (the `#k` suffixes depend on the number of paths):
+        one obligation per kind of call-site precondition, And over all occurrences of (pc => claim)."""
+        groups: dict[str, list[PendingObligation]] = {}
+        for o in self.obligations:
+            groups.setdefault(o.name.split("#")[0], []).append(o)
+        out = []
+        for base, lst in groups.items():
+            claim = z3.And(*[z3.Implies(z3.And(*o.hyps) if o.hyps else z3.BoolVal(True), o.claim) for o in lst])
+            out.append(PendingObligation(base, [], claim, f"{len(lst)} occurrence(s)"))
+        return out
+
     def assume(self, st: State, fact) -> None:
         st.pc.append(fact)
 
